@@ -1,0 +1,298 @@
+//! Hooks for external verification harnesses.
+//!
+//! This module exists only when the crate is compiled with
+//! `--cfg frozenlib_derive_ex_verif` (never in a normal build). With that flag the two
+//! `#[proc_macro*]` entry points are compiled out, so the crate can be linked as an
+//! ordinary library, and this module offers
+//!
+//! - [`expand_attr`] / [`expand_derive`]: the same expansions as `#[derive_ex]` and
+//!   `#[derive(Ex)]`, over `proc_macro2::TokenStream`;
+//! - [`HashMap`] / [`HashSet`]: drop-in replacements for the `std::collections` containers
+//!   used by the expander whose hash keys are chosen by the harness instead of the OS
+//!   (with `--cfg frozenlib_derive_ex_verif_stdhash` they are the std containers again).
+
+use proc_macro2::TokenStream;
+
+/// In-process equivalent of the `#[derive_ex(attr)] item` attribute macro.
+pub fn expand_attr(attr: TokenStream, item: TokenStream) -> TokenStream {
+    let mut item: TokenStream = item;
+    match crate::build(attr, item.clone()) {
+        Ok(s) => s,
+        Err(e) => {
+            item.extend(e.to_compile_error());
+            item
+        }
+    }
+}
+
+/// In-process equivalent of the `#[derive(Ex)]` derive macro.
+pub fn expand_derive(input: TokenStream) -> TokenStream {
+    match crate::item_type::build_derive(input) {
+        Ok(s) => s,
+        Err(e) => e.to_compile_error(),
+    }
+}
+
+#[cfg(frozenlib_derive_ex_verif_stdhash)]
+pub use std::collections::{HashMap, HashSet};
+
+#[cfg(not(frozenlib_derive_ex_verif_stdhash))]
+pub use self::sim_hash::{
+    hash_stats, set_hash_policy, HashMap, HashPolicy, HashSet, SimBuildHasher, SimHasher,
+};
+
+#[cfg(not(frozenlib_derive_ex_verif_stdhash))]
+mod sim_hash {
+    #![allow(deprecated)]
+    use std::borrow::Borrow;
+    use std::collections::hash_map::RandomState;
+    use std::hash::{BuildHasher, Hash, Hasher, SipHasher};
+    use std::ops::{Deref, DerefMut};
+    use std::sync::atomic::{AtomicU64, AtomicU8, Ordering::SeqCst};
+
+    /// How the next containers get their hash keys.
+    #[derive(Debug, Copy, Clone, Eq, PartialEq)]
+    pub enum HashPolicy {
+        /// Every container created from now on uses exactly this key.
+        Keyed(u64, u64),
+        /// Like `RandomState`: start from this key, add one per container created.
+        Counting(u64, u64),
+        /// Every value hashes to the same bucket.
+        Degenerate,
+        /// Use `std::collections::hash_map::RandomState` (keys from the OS).
+        Os,
+    }
+
+    static MODE: AtomicU8 = AtomicU8::new(0);
+    static K0: AtomicU64 = AtomicU64::new(0x6465_7269_7665_2d65);
+    static K1: AtomicU64 = AtomicU64::new(0x785f_7665_7269_6621);
+    static CONTAINERS: AtomicU64 = AtomicU64::new(0);
+    static HASHES: AtomicU64 = AtomicU64::new(0);
+
+    /// Sets the policy for containers created after this call (process-wide).
+    pub fn set_hash_policy(policy: HashPolicy) {
+        let (mode, k0, k1) = match policy {
+            HashPolicy::Keyed(k0, k1) => (0, k0, k1),
+            HashPolicy::Counting(k0, k1) => (1, k0, k1),
+            HashPolicy::Degenerate => (2, 0, 0),
+            HashPolicy::Os => (3, 0, 0),
+        };
+        K0.store(k0, SeqCst);
+        K1.store(k1, SeqCst);
+        MODE.store(mode, SeqCst);
+    }
+    /// (containers created, values hashed) since process start.
+    pub fn hash_stats() -> (u64, u64) {
+        (CONTAINERS.load(SeqCst), HASHES.load(SeqCst))
+    }
+
+    #[derive(Clone)]
+    pub enum SimBuildHasher {
+        Keyed(u64, u64),
+        Degenerate,
+        Os(RandomState),
+    }
+    impl Default for SimBuildHasher {
+        fn default() -> Self {
+            CONTAINERS.fetch_add(1, SeqCst);
+            match MODE.load(SeqCst) {
+                0 => Self::Keyed(K0.load(SeqCst), K1.load(SeqCst)),
+                1 => Self::Keyed(K0.fetch_add(1, SeqCst), K1.load(SeqCst)),
+                2 => Self::Degenerate,
+                _ => Self::Os(RandomState::new()),
+            }
+        }
+    }
+    impl BuildHasher for SimBuildHasher {
+        type Hasher = SimHasher;
+        fn build_hasher(&self) -> SimHasher {
+            HASHES.fetch_add(1, SeqCst);
+            match self {
+                Self::Keyed(k0, k1) => SimHasher::Sip(SipHasher::new_with_keys(*k0, *k1)),
+                Self::Degenerate => SimHasher::Degenerate,
+                Self::Os(s) => SimHasher::Os(s.build_hasher()),
+            }
+        }
+    }
+    pub enum SimHasher {
+        Sip(SipHasher),
+        Degenerate,
+        Os(std::collections::hash_map::DefaultHasher),
+    }
+    impl Hasher for SimHasher {
+        fn finish(&self) -> u64 {
+            match self {
+                Self::Sip(h) => h.finish(),
+                Self::Degenerate => 0,
+                Self::Os(h) => h.finish(),
+            }
+        }
+        fn write(&mut self, bytes: &[u8]) {
+            match self {
+                Self::Sip(h) => h.write(bytes),
+                Self::Degenerate => {}
+                Self::Os(h) => h.write(bytes),
+            }
+        }
+    }
+
+    type StdMap<K, V> = std::collections::HashMap<K, V, SimBuildHasher>;
+    type StdSet<T> = std::collections::HashSet<T, SimBuildHasher>;
+
+    #[derive(Clone)]
+    pub struct HashMap<K, V>(StdMap<K, V>);
+    #[derive(Clone)]
+    pub struct HashSet<T>(StdSet<T>);
+
+    impl<K, V> HashMap<K, V> {
+        pub fn new() -> Self {
+            Self(StdMap::default())
+        }
+        pub fn with_capacity(capacity: usize) -> Self {
+            Self(StdMap::with_capacity_and_hasher(capacity, Default::default()))
+        }
+        pub fn into_keys(self) -> std::collections::hash_map::IntoKeys<K, V> {
+            self.0.into_keys()
+        }
+        pub fn into_values(self) -> std::collections::hash_map::IntoValues<K, V> {
+            self.0.into_values()
+        }
+    }
+    impl<T> HashSet<T> {
+        pub fn new() -> Self {
+            Self(StdSet::default())
+        }
+        pub fn with_capacity(capacity: usize) -> Self {
+            Self(StdSet::with_capacity_and_hasher(capacity, Default::default()))
+        }
+    }
+    impl<K, V> Default for HashMap<K, V> {
+        fn default() -> Self {
+            Self::new()
+        }
+    }
+    impl<T> Default for HashSet<T> {
+        fn default() -> Self {
+            Self::new()
+        }
+    }
+    impl<K, V> Deref for HashMap<K, V> {
+        type Target = StdMap<K, V>;
+        fn deref(&self) -> &Self::Target {
+            &self.0
+        }
+    }
+    impl<K, V> DerefMut for HashMap<K, V> {
+        fn deref_mut(&mut self) -> &mut Self::Target {
+            &mut self.0
+        }
+    }
+    impl<T> Deref for HashSet<T> {
+        type Target = StdSet<T>;
+        fn deref(&self) -> &Self::Target {
+            &self.0
+        }
+    }
+    impl<T> DerefMut for HashSet<T> {
+        fn deref_mut(&mut self) -> &mut Self::Target {
+            &mut self.0
+        }
+    }
+    impl<K: Eq + Hash, V> FromIterator<(K, V)> for HashMap<K, V> {
+        fn from_iter<I: IntoIterator<Item = (K, V)>>(iter: I) -> Self {
+            let mut this = Self::new();
+            this.0.extend(iter);
+            this
+        }
+    }
+    impl<T: Eq + Hash> FromIterator<T> for HashSet<T> {
+        fn from_iter<I: IntoIterator<Item = T>>(iter: I) -> Self {
+            let mut this = Self::new();
+            this.0.extend(iter);
+            this
+        }
+    }
+    impl<K: Eq + Hash, V, const N: usize> From<[(K, V); N]> for HashMap<K, V> {
+        fn from(value: [(K, V); N]) -> Self {
+            value.into_iter().collect()
+        }
+    }
+    impl<T: Eq + Hash, const N: usize> From<[T; N]> for HashSet<T> {
+        fn from(value: [T; N]) -> Self {
+            value.into_iter().collect()
+        }
+    }
+    impl<K: Eq + Hash, V> Extend<(K, V)> for HashMap<K, V> {
+        fn extend<I: IntoIterator<Item = (K, V)>>(&mut self, iter: I) {
+            self.0.extend(iter)
+        }
+    }
+    impl<T: Eq + Hash> Extend<T> for HashSet<T> {
+        fn extend<I: IntoIterator<Item = T>>(&mut self, iter: I) {
+            self.0.extend(iter)
+        }
+    }
+    impl<K, V> IntoIterator for HashMap<K, V> {
+        type Item = (K, V);
+        type IntoIter = std::collections::hash_map::IntoIter<K, V>;
+        fn into_iter(self) -> Self::IntoIter {
+            self.0.into_iter()
+        }
+    }
+    impl<'a, K, V> IntoIterator for &'a HashMap<K, V> {
+        type Item = (&'a K, &'a V);
+        type IntoIter = std::collections::hash_map::Iter<'a, K, V>;
+        fn into_iter(self) -> Self::IntoIter {
+            self.0.iter()
+        }
+    }
+    impl<'a, K, V> IntoIterator for &'a mut HashMap<K, V> {
+        type Item = (&'a K, &'a mut V);
+        type IntoIter = std::collections::hash_map::IterMut<'a, K, V>;
+        fn into_iter(self) -> Self::IntoIter {
+            self.0.iter_mut()
+        }
+    }
+    impl<T> IntoIterator for HashSet<T> {
+        type Item = T;
+        type IntoIter = std::collections::hash_set::IntoIter<T>;
+        fn into_iter(self) -> Self::IntoIter {
+            self.0.into_iter()
+        }
+    }
+    impl<'a, T> IntoIterator for &'a HashSet<T> {
+        type Item = &'a T;
+        type IntoIter = std::collections::hash_set::Iter<'a, T>;
+        fn into_iter(self) -> Self::IntoIter {
+            self.0.iter()
+        }
+    }
+    impl<K: Eq + Hash, V: PartialEq> PartialEq for HashMap<K, V> {
+        fn eq(&self, other: &Self) -> bool {
+            self.0 == other.0
+        }
+    }
+    impl<K: Eq + Hash, V: Eq> Eq for HashMap<K, V> {}
+    impl<T: Eq + Hash> PartialEq for HashSet<T> {
+        fn eq(&self, other: &Self) -> bool {
+            self.0 == other.0
+        }
+    }
+    impl<T: Eq + Hash> Eq for HashSet<T> {}
+    impl<K: std::fmt::Debug, V: std::fmt::Debug> std::fmt::Debug for HashMap<K, V> {
+        fn fmt(&self, f: &mut std::fmt::Formatter<'_>) -> std::fmt::Result {
+            self.0.fmt(f)
+        }
+    }
+    impl<T: std::fmt::Debug> std::fmt::Debug for HashSet<T> {
+        fn fmt(&self, f: &mut std::fmt::Formatter<'_>) -> std::fmt::Result {
+            self.0.fmt(f)
+        }
+    }
+    impl<K: Eq + Hash + Borrow<Q>, Q: Eq + Hash + ?Sized, V> std::ops::Index<&Q> for HashMap<K, V> {
+        type Output = V;
+        fn index(&self, key: &Q) -> &V {
+            &self.0[key]
+        }
+    }
+}
